@@ -40,6 +40,8 @@ type FuncContract struct {
 	Pure     bool // heap independent, deterministic: gets a function symbol
 	Inline   bool
 	Loops    map[int]*LoopSpec
+	InlineHere []string           // callees (substring of their key) inlined into this function whatever their own contract says
+	InlLoops map[string]*LoopSpec // loops of inlined callees: key "<callee-substring>[#<call-site ordinal>]:<loop ordinal>"
 	Asserts  map[string][]Clause // keyed by program point label
 	Assume   []Clause            // explicit assumptions (listed in evidence)
 	Focus    []Clause            // path restriction: ensures are proved only for paths satisfying these (they read "focus => post")
@@ -268,17 +270,33 @@ func (db *ContractDB) loadContractFile(path, pkgPath string) error {
 				return fail("%v", err)
 			}
 			cur.Decr = sx
+		case "inline-here":
+			cur.InlineHere = append(cur.InlineHere, strings.Fields(rest)...)
 		case "loop":
 			nS, r2 := splitWord(rest)
-			n, err := strconv.Atoi(nS)
-			if err != nil {
-				return fail("bad loop ordinal %q", nS)
-			}
 			sub, r3 := splitWord(r2)
-			ls := cur.Loops[n]
-			if ls == nil {
-				ls = &LoopSpec{}
-				cur.Loops[n] = ls
+			var ls *LoopSpec
+			if n, err := strconv.Atoi(nS); err == nil {
+				ls = cur.Loops[n]
+				if ls == nil {
+					ls = &LoopSpec{}
+					cur.Loops[n] = ls
+				}
+			} else if k := strings.LastIndex(nS, ":"); k > 0 {
+				// loop of an inlined callee: <callee-substring>[#<site>]:<N>
+				if _, err := strconv.Atoi(nS[k+1:]); err != nil {
+					return fail("bad loop ordinal %q", nS)
+				}
+				if cur.InlLoops == nil {
+					cur.InlLoops = map[string]*LoopSpec{}
+				}
+				ls = cur.InlLoops[nS]
+				if ls == nil {
+					ls = &LoopSpec{}
+					cur.InlLoops[nS] = ls
+				}
+			} else {
+				return fail("bad loop ordinal %q", nS)
 			}
 			switch sub {
 			case "invariant":
